@@ -100,6 +100,30 @@ func (g *Gen) c06Key(cls string, n int, tuples [][]string) {
 	g.Case(6, c06B(c06Flat(tuples)...), []int64{int64(n), int64(withCounter)})
 }
 
+// c06Pooled: records built as syslog lines of the given sizes, parsed by the real parser with the pooled allocator
+func (g *Gen) c06Pooled(cls, tmpl string, names []string, tuples [][]string, sizes []int, mode int) {
+	g.Count("pooled:" + cls)
+	s := []string{tmpl}
+	s = append(s, names...)
+	s = append(s, c06Flat(tuples)...)
+	z := []int64{int64(len(names)), int64(mode)}
+	for i := range tuples {
+		sz := 1500
+		if i < len(sizes) {
+			sz = sizes[i]
+		}
+		z = append(z, int64(sz))
+	}
+	if g.Case(7, c06B(s...), z) != "" && mode == 0 {
+		for i := 0; i < c06PoolStats.records; i++ {
+			g.Count("pooled:records-over-1024-bytes")
+		}
+		for i := 0; i < c06PoolStats.reused; i++ {
+			g.Count("pooled:records-parsed-into-a-recycled-buffer")
+		}
+	}
+}
+
 func (g *Gen) c06Metric(cls string, names []string, tuples [][]string) {
 	g.Count("metric:" + cls)
 	s := append([]string{}, names...)
@@ -165,6 +189,17 @@ func (g *Gen) c06RandKey() string {
 		}
 		return string(b)
 	}
+}
+
+func (g *Gen) c06RandTupleNoSpace(n int) []string {
+	t := g.c06RandTuple(n)
+	for j := range t {
+		t[j] = strings.NewReplacer(" ", "_", "\n", "_").Replace(t[j])
+		if len(t[j]) > 100 {
+			t[j] = t[j][:100]
+		}
+	}
+	return t
 }
 
 func (g *Gen) c06RandTuple(n int) []string {
@@ -535,6 +570,84 @@ func c06Gen(g *Gen) {
 			group := g.c06RandGroup(n, r.Range(2, 6), false)
 			recs := g.c06Shuffle(append(append([][]string{}, group...), group[:r.Intn(len(group))]...))
 			g.c06E2E("random", r.PickStr(c06Templates(n)), c06DefaultNames[:n], recs, r.Intn(3))
+		}
+	}
+	// ------------------------------------------------------------------ records from the real parser with the pooled allocator (kind 7)
+	{
+		pnames := [][]string{{"app"}, {"host", "app"}, {"app", "host"}, {"host", "app", "source"}, {"source", "pid", "app", "host"}}
+		ptmpl := func(names []string) []string {
+			first, last := names[0], names[len(names)-1]
+			return []string{"$" + first, "${" + last + "}", "${" + first + "[:2]}", "${" + last + "[-3:]}", "t.$" + first, "$" + first + "-$" + last, "fixed"}
+		}
+		palpha := []string{"", "a", "b", "ab", ",", "a,b", "/", "\x00", "sshd", "cron"}
+		for mode := 0; mode <= 1; mode++ {
+			// the demonstration of the seeded change, with the real parser
+			g.c06Pooled("probe", "$app", pnames[0], [][]string{{"sshd"}, {"cron"}, {"sshd"}, {"ntpd"}, {"cron"}, {"sshd"}}, nil, mode)
+			g.c06Pooled("probe", "$app", pnames[1], [][]string{{"h1", "sshd"}, {"host2", "cron"}, {"h1", "sshd"}, {"h", "ntpd"}}, []int{1100, 1200, 1300, 1400}, mode)
+			g.c06Pooled("probe", "$app", pnames[0], [][]string{{"sshd"}, {"cron"}, {"sshd"}}, []int{200, 300, 400}, mode) // below the pooling threshold
+			for _, names := range pnames {
+				n := len(names)
+				for ti, tmpl := range ptmpl(names) {
+					if !g.Thorough() && ((mode == 1 && (ti%3 != 0 || len(names) > 2)) || (mode == 0 && len(names) > 2 && ti > 2)) {
+						continue
+					}
+					// every key set over the alphabet first (n <= 2), then again in another order: every pipeline's
+					// first record has been overwritten many times when the pipelines are looked at
+					alpha := palpha
+					if n > 1 {
+						alpha = palpha[:6]
+					}
+					if n > 2 {
+						alpha = []string{"", "a", "ab", ","}
+					}
+					all := c06AllTuples(n, alpha)
+					if len(all) > 64 {
+						all = g.c06Shuffle(all)[:64]
+					}
+					recs := append(append([][]string{}, all...), g.c06Shuffle(all)...)
+					sizes := make([]int, len(recs))
+					for i := range sizes {
+						sizes[i] = r.PickInt([]int{1025, 1100, 1500, 2000, 2047, 2048, 3000, 1500, 1500})
+					}
+					g.c06Pooled("all-tuples", tmpl, names, recs, sizes, mode)
+				}
+			}
+		}
+		for i := 0; i < g.Pick(150, 3000); i++ {
+			names := pnames[r.Intn(len(pnames))]
+			n := len(names)
+			tmpl := r.PickStr(ptmpl(names))
+			var group [][]string
+			for _, t := range g.c06RandGroup(n, r.Range(2, 6), false) {
+				ok := true
+				for j := range t {
+					t[j] = strings.NewReplacer(" ", "_", "\n", "_").Replace(t[j])
+					if len(t[j]) > 100 {
+						ok = false
+					}
+				}
+				if ok {
+					group = append(group, t)
+				}
+			}
+			if len(group) == 0 {
+				continue
+			}
+			// first records of the key sets, then unrelated large records, then the key sets again
+			recs := append([][]string{}, group...)
+			for k := r.Range(1, 6); k > 0; k-- {
+				recs = append(recs, g.c06RandTupleNoSpace(n))
+			}
+			recs = append(recs, g.c06Shuffle(group)...)
+			sizes := make([]int, len(recs))
+			class := r.PickInt([]int{1500, 3000, 5000})
+			for j := range sizes {
+				sizes[j] = class + r.Intn(400)
+				if r.Chance(1, 8) {
+					sizes[j] = r.PickInt([]int{100, 500, 1023, 1024, 1025})
+				}
+			}
+			g.c06Pooled("random", tmpl, names, recs, sizes, r.Intn(2))
 		}
 	}
 	// ------------------------------------------------------------------ umask / directory mode
